@@ -175,7 +175,7 @@ pub fn run(sx: &Sx) -> Vec<String> {
 }
 
 /// one render; also returns the number of live reactive nodes seen when the view function starts
-pub fn run_one(mode: &str, view: &Sx, sched: &Sx) -> (Vec<String>, usize, (u32, u32)) {
+pub fn run_one(mode: &str, view: &Sx, sched: &Sx) -> (Vec<String>, usize, (u32, u32), Option<usize>) {
     let mode = mode.to_string();
     let view = parse(view);
     let schedule: Vec<u32> = sched.list().iter().map(|g| g.num()).collect();
@@ -183,6 +183,10 @@ pub fn run_one(mode: &str, view: &Sx, sched: &Sx) -> (Vec<String>, usize, (u32, 
     let (c1, c2, c3) = (count.clone(), count.clone(), count.clone());
     let stable = Rc::new(std::cell::Cell::new((0u32, 0u32)));
     let (s1, s2, s3) = (stable.clone(), stable.clone(), stable.clone());
+    // the root scope of the (private, per-thread) root the render runs in, to count the live nodes once the render has finished
+    let rootscope: Rc<std::cell::Cell<Option<sycamore_reactive::NodeHandle>>> = Rc::new(std::cell::Cell::new(None));
+    let (r1, r2, r3) = (rootscope.clone(), rootscope.clone(), rootscope.clone());
+    let mut after: Option<usize> = None;
     let mut ids = Vec::new();
     gates_of(&view, &mut ids);
     let mut senders: HashMap<u32, oneshot::Sender<()>> = HashMap::new();
@@ -202,6 +206,7 @@ pub fn run_one(mode: &str, view: &Sx, sched: &Sx) -> (Vec<String>, usize, (u32, 
                 sycamore_futures::provide_executor_scope(async {
                     render_to_string(move || {
                         c1.set(sycamore_reactive::verif::node_count());
+                    r1.set(Some(sycamore_reactive::use_global_scope()));
                         s1.set((use_stable_counter(), use_stable_counter()));
                         prepare_resources(&view, &gates);
                         build(&view, &gates)
@@ -210,6 +215,7 @@ pub fn run_one(mode: &str, view: &Sx, sched: &Sx) -> (Vec<String>, usize, (u32, 
                 .await
             });
             out.push(format!("sync {}", hex(&s)));
+            after = rootscope.get().map(|h| h.run_in(sycamore_reactive::verif::node_count));
         }
         "blocking" => {
             let rt = tokio::runtime::Builder::new_current_thread().build().unwrap();
@@ -217,6 +223,7 @@ pub fn run_one(mode: &str, view: &Sx, sched: &Sx) -> (Vec<String>, usize, (u32, 
             local.block_on(&rt, async {
                 let fut = render_to_string_await_suspense(move || {
                     c2.set(sycamore_reactive::verif::node_count());
+                    r2.set(Some(sycamore_reactive::use_global_scope()));
                     s2.set((use_stable_counter(), use_stable_counter()));
                     prepare_resources(&view, &gates);
                     build(&view, &gates)
@@ -244,6 +251,8 @@ pub fn run_one(mode: &str, view: &Sx, sched: &Sx) -> (Vec<String>, usize, (u32, 
                         Some(s) => {
                             done = true;
                             out.push(format!("{step} done {}", hex(&s)));
+                            settle().await;
+                            after = rootscope.get().map(|h| h.run_in(sycamore_reactive::verif::node_count));
                         }
                         None => out.push(format!("{step} pending")),
                     }
@@ -256,6 +265,7 @@ pub fn run_one(mode: &str, view: &Sx, sched: &Sx) -> (Vec<String>, usize, (u32, 
             local.block_on(&rt, async {
                 let stream = render_to_string_stream(move || {
                     c3.set(sycamore_reactive::verif::node_count());
+                    r3.set(Some(sycamore_reactive::use_global_scope()));
                     s3.set((use_stable_counter(), use_stable_counter()));
                     prepare_resources(&view, &gates);
                     build(&view, &gates)
@@ -278,6 +288,8 @@ pub fn run_one(mode: &str, view: &Sx, sched: &Sx) -> (Vec<String>, usize, (u32, 
                             std::task::Poll::Ready(None) => {
                                 ended = true;
                                 out.push(format!("{step} end"));
+                                settle().await;
+                                after = rootscope.get().map(|h| h.run_in(sycamore_reactive::verif::node_count));
                             }
                             std::task::Poll::Pending => break,
                         }
@@ -287,5 +299,5 @@ pub fn run_one(mode: &str, view: &Sx, sched: &Sx) -> (Vec<String>, usize, (u32, 
         }
         m => panic!("unsupported mode {m}"),
     }
-    (out, count.get(), stable.get())
+    (out, count.get(), stable.get(), after)
 }
